@@ -170,9 +170,9 @@ def owner_of(div, beh):
     if kind == "rejected_changed_state" or (kind in ("model_mismatch", "result_mismatch") and op.get("res") == "err"):
         return {"C05"}
     if graph_only(div):
-        deleted_before = beh and any(s["op"].get("op") in ("VDelete", "VDeleteCut") and s["op"].get("res") == "ok"
+        deleted_before = beh and any(s["op"].get("op") in ("VDelete", "VDeleteCut", "VDeleteSnapCut") and s["op"].get("res") == "ok"
                                      for s in beh["steps"][: div.get("step", 0) + 1])
-        if name in ("VDelete", "VDeleteCut"):
+        if name in ("VDelete", "VDeleteCut", "VDeleteSnapCut"):
             return {"C12"}
         if name == "Reopen":
             return {"C01", "C12" if deleted_before else "C10"}
@@ -233,7 +233,7 @@ def nontrivial(prop, ops):
     if prop == "C10":
         return sum(1 for n in names if n in GRAPH_OPS) >= 2
     if prop == "C12":
-        return any(o.get("op") in ("VDelete", "VDeleteCut") and o.get("res") == "ok" for o in ops) and "VLink" in names
+        return any(o.get("op") in ("VDelete", "VDeleteCut", "VDeleteSnapCut") and o.get("res") == "ok" for o in ops) and "VLink" in names
     return len(names) >= 2
 
 
@@ -354,7 +354,7 @@ def run(prop, tier):
             # nothing journaled between the image and the import
             names = [o.get("op") for o in ops]
             for i, nm in enumerate(names):
-                if nm == "VImport" and i > 0 and names[i - 1] in ("SaveSnapshot", "RewriteAOF", "Reopen", "VCompress", "VImportCommit", "VDeleteCut") \
+                if nm == "VImport" and i > 0 and names[i - 1] in ("SaveSnapshot", "RewriteAOF", "Reopen", "VCompress", "VImportCommit", "VDeleteCut", "VDeleteSnapCut") \
                         and "VImportCommit" in names[i + 1:]:
                     return "admin_then_import"
             return "other"
@@ -404,7 +404,7 @@ def run(prop, tier):
         has_ev = lambda ops: any(o.get("op") == "VEvolve" and o.get("res") == "ok" for o in ops)
         if prop == "C12":
             has_ev = lambda ops: any(o.get("op") == "VEvolve" and o.get("res") == "ok" for o in ops) and any(
-                o.get("op") in ("VDelete", "VDeleteCut") and o.get("res") == "ok" for o in ops[3:])
+                o.get("op") in ("VDelete", "VDeleteCut", "VDeleteSnapCut") and o.get("res") == "ok" for o in ops[3:])
         b6, _ = vlib.behaviours_from_corpus(ce, max_behaviours=100 if quick else 5000, rng=rng, need=has_ev)
         b7, _ = vlib.behaviours_from_corpus(cw, max_behaviours=60 if quick else 1500, rng=rng, need=has_ev)
         for i, b in enumerate(b6):
@@ -468,7 +468,7 @@ def run(prop, tier):
         if not quick:
             model_check(chk, "MC_Kektor_seeded_graph", sg, timeout=3000)
         cg = corpus(chk, "MC_Kektor_seeded_graph_corpus", sg, workers=8, timeout=3000)
-        pick = {"C12": lambda ops: any(o.get("op") in ("VDelete", "VDeleteCut") and o.get("res") == "ok" for o in ops[7:]),
+        pick = {"C12": lambda ops: any(o.get("op") in ("VDelete", "VDeleteCut", "VDeleteSnapCut") and o.get("res") == "ok" for o in ops[7:]),
                 "C10": lambda ops: len(ops) > 7, "C01": lambda ops: len(ops) > 7}[prop]
         b8, _ = vlib.behaviours_from_corpus(cg, max_behaviours=150 if quick else 8000, rng=rng, need=pick)
         for i, b in enumerate(b8):
